@@ -311,10 +311,10 @@ func StructBuilder(env *Zlisp, name string,
 			}
 		}
 		if prevType != nil {
-			GoStructRegistry.RegisterUserdef(prevType, false, structName)
+			GoStructRegistry.RegisterScriptdef(prevType, structName)
 		} else {
 			delete(GoStructRegistry.Registry, structName)
-			delete(GoStructRegistry.Userdef, structName)
+			delete(GoStructRegistry.Scriptdef, structName)
 		}
 	}()
 
@@ -328,7 +328,7 @@ func StructBuilder(env *Zlisp, name string,
 		})
 		rtR.UserStructDefn = udsR
 		rtR.DisplayAs = structName
-		GoStructRegistry.RegisterUserdef(rtR, false, structName)
+		GoStructRegistry.RegisterScriptdef(rtR, structName)
 
 		// overwrite any existing definition, deliberately ignore any error,
 		// as there may not be a prior definition present at all.
@@ -406,7 +406,7 @@ func StructBuilder(env *Zlisp, name string,
 	})
 	rt.UserStructDefn = uds
 	rt.DisplayAs = structName
-	GoStructRegistry.RegisterUserdef(rt, false, structName)
+	GoStructRegistry.RegisterScriptdef(rt, structName)
 	//Q("good: registered new userdefined struct '%s'", structName)
 
 	// replace our recursive-reference-enabling symbol with the real one.
@@ -715,7 +715,7 @@ func ArrayOfFunction(env *Zlisp, name string,
 	})
 	arrayRt.DisplayAs = fmt.Sprintf("(%s %s)", name, rt.DisplayAs)
 	arrayName := "arrayOf" + rt.RegisteredName
-	GoStructRegistry.RegisterUserdef(arrayRt, false, arrayName)
+	GoStructRegistry.RegisterScriptdef(arrayRt, arrayName)
 	return arrayRt, nil
 }
 
